@@ -2,15 +2,17 @@ SPECIFICATION Spec
 CONSTANTS
   NP = 6
   NK = 2
-  NCaller = 1
-  MaxQ = 1
+  NCaller = 2
+  MaxQ = 2
   CGS = 5
-  Depth = 8
-  MaxReplies = 6
+  Depth = 9
+  MaxReplies = 5
+  MaxReplies2 = 3
+  MaxDup = 1
   MaxForeign = 1
   MaxLate = 1
   QuorumSet = {"One", "N2", "Maj", "All"}
-  Triples = {{1,2,13}}
+  Triples = {{1, 2, 13}}
   SplitSizes = {2, 3}
   Record = FALSE
   KnownMask = {"C05-merge-bypasses-target", "C05-mixed-kinds-first-record-dictates", "C05-equal-counter-scratchpad-first-wins"}
